@@ -1632,7 +1632,11 @@ Qed.
 (* ================================================================== *)
 
 Lemma expand_static body pc i : Forall (fun m => is_static m = true) (expand body pc i).
-Proof. destruct i; cbn [expand]; repeat constructor. Qed.
+Proof.
+  destruct i; cbn [expand];
+    try match goal with |- context [Nat.eqb ?k 2] => destruct (Nat.eqb k 2) end;
+    repeat constructor.
+Qed.
 
 Lemma expand_body_static body : forall l pc,
   Forall (fun m => is_static m = true) (expand_body_from body pc l).
